@@ -335,6 +335,8 @@ inline std::vector<double> alphabet(const std::string &name) {
     if (name == "U") return {1};
     if (name == "A2") return {1, 2};
     if (name == "A3") return {1, 2, 3};
+    if (name == "B2") return {33554433, 33554434};               // 2^25 + {1,2}: 26 significant bits per weight, sums stay exact in double and int;
+    if (name == "B3") return {33554433, 33554434, 33554435};     // competing cycles differ by a few units at magnitude 1e8 (below one float ulp)
     if (name == "D") return {0.25, 0.5, 0.75};
     if (name == "F") return {0.1, 0.2, 0.3};
     if (name == "F4") return {0.1, 0.2, 0.3, 0.7};
